@@ -427,9 +427,34 @@ func genC01(c *Ctx) {
 				idx, _ := ring.AutomorphismNTTIndex(N, uint64(2*N), gal)
 				c.Emit(fmt.Sprintf("autidx %d %d %d", N, 2*N, gal), Vec(idx))
 				kk := r.Intn(4*N) - 2*N
+				// boundary exponents: 0, ±1, ±(N−1), ±N, ±(N+1), ±(2N−1), ±2N
+				if bk := []int{0, 1, -1, N - 1, 1 - N, N, -N, N + 1, -N - 1, 2*N - 1, 1 - 2*N, 2 * N, -2 * N}; k < 2*len(bk) {
+					kk = bk[k%len(bk)]
+				}
 				o2 := rl.NewPoly()
 				out := Try(func() string { rl.MultByMonomial(p, kk, o2); return Mat(Canon(rl, o2, false, false)) })
 				c.Emit(fmt.Sprintf("rpmono %s %d %s", Vec(qs[:lvl+1]), kk, Mat(rows)), out)
+				if kk+2*N >= 0 {
+					// property predicate: p·X^k in Z[X]/(X^N+1), k of any sign (integer reference)
+					ref := make([][]uint64, lvl+1)
+					for i := 0; i <= lvl; i++ {
+						ref[i] = make([]uint64, N)
+						for j := 0; j < N; j++ {
+							e := ((j+kk)%(2*N) + 2*N) % (2 * N)
+							v := rows[i][j] % qs[i]
+							if e < N {
+								ref[i][e] = v
+							} else {
+								ref[i][e-N] = (qs[i] - v) % qs[i]
+							}
+						}
+					}
+					d := ""
+					if Mat(ref) != out {
+						d = "MultByMonomial differs from p*X^k"
+					}
+					c.Probe("monomial_ref", fmt.Sprintf("%s %d %s", Vec(qs[:lvl+1]), kk, Mat(rows)), "C01/Ring.MultByMonomial/not-p-times-X^k", d)
+				}
 				c.Count("ring:aut+monomial")
 				// Ring-level scalar operations against the abstract layer
 				p2 := rl.NewPoly()
